@@ -28,6 +28,53 @@ func runC18(c *Ctx) {
 	ruleBucketKeys(c, "R18.2")
 	rulePreviousSig(c, "R18.3")
 	ruleMemDB(c, "R18.4")
+	ruleLenCountsContent(c, "R18.5")
+}
+
+// R18.5: Len reports what is stored. The bolt back-ends count the keys of the beacon bucket inside a read transaction
+// (bucket.Stats().KeyN); the in-memory back-end returns the length of its slice. A counter maintained on the side drifts
+// (bolt's Delete succeeds for a missing key, Put overwrites) and only a reopen recounts it.
+func ruleLenCountsContent(c *Ctx, rule string) {
+	c.ranRules[rule] = true
+	n := 0
+	for _, key := range []string{"internal/chain/boltdb.(*BoltStore).Len", "internal/chain/boltdb.(*trimmedStore).Len"} {
+		fn := c.P.Fn(key)
+		if !c.Anchor(rule, key, fn != nil) {
+			continue
+		}
+		n++
+		ok := true
+		detail := ""
+		for _, lf := range returnLeaves(fn, 0) {
+			if k, isK := lf.v.(*ssa.Const); isK && k.Value != nil && k.Value.ExactString() == "0" {
+				continue // the error returns
+			}
+			os := originsExpanded(lf.v, 0)
+			counted := hasOrigin(os, func(o Origin) bool { return o.Kind == "field" && strings.HasSuffix(o.Name, "BucketStats.KeyN") }) ||
+				hasOrigin(os, func(o Origin) bool { return o.Kind == "call" && strings.HasSuffix(o.Name, "bbolt.Bucket).Stats") })
+			onlyCounted := allOrigins(os, func(o Origin) bool {
+				return o.Kind == "const" || (o.Kind == "field" && strings.HasSuffix(o.Name, "BucketStats.KeyN")) || (o.Kind == "call" && strings.HasSuffix(o.Name, "bbolt.Bucket).Stats")) || o.Kind == "alloc"
+			})
+			if !counted || !onlyCounted {
+				ok = false
+				detail = "returned length origins: " + strings.Join(originStrings(os), ",")
+			}
+		}
+		c.Ok(rule, fnShort(fn)+" counts the keys of the beacon bucket", c.P.Pos(fn.Pos()), ok, detail)
+	}
+	if fn := c.P.Fn("internal/chain/memdb.(*Store).Len"); c.Anchor(rule, "internal/chain/memdb.(*Store).Len", fn != nil) {
+		n++
+		ok := false
+		for _, lf := range returnLeaves(fn, 0) {
+			if call, isCall := stripConv(lf.v).(*ssa.Call); isCall {
+				if b, isB := call.Common().Value.(*ssa.Builtin); isB && b.Name() == "len" && strings.HasSuffix(pathOf(call.Common().Args[0]), ".store") {
+					ok = true
+				}
+			}
+		}
+		c.Ok(rule, fnShort(fn)+" returns the number of held beacons", c.P.Pos(fn.Pos()), ok, "len(s.store)")
+	}
+	c.Floor(rule, "Len implementations of the back-ends", n, 3)
 }
 
 // boltCallKV: v derives from result #idx of a bolt cursor/getter call; returns that call.
